@@ -220,3 +220,127 @@ def check_sub(ctx, r, rid):
     if not bad:
         r.inst("init_subcontext_with_options (evaluated)", "%d situations (cookie x named / unnamed x initial locale absent / fixed / appearing / changing x parent present / absent): "
                "cookie, explicit initial locale, parent's locale (read once, untracked), then the main resolution; a wired initial-locale signal wins when it changes" % n)
+
+
+def check_inner(ctx, r, rid):
+    """init_context_inner on a model of cells and effects.  A `RenderEffect` runs its first pass when it is created and lives as long
+    as its handle (it must be moved into `on_cleanup`); an `Effect` runs its first pass on the next tick and is owned by the owner;
+    an effect re-runs only for what it read *tracked*.  Demanded: the context is built around a signal created in this call holding
+    the initial memo's first value; a `set_locale` made right after creation survives the first tick; when the initial memo later
+    yields another value the signal takes it; every value the signal takes is written to the cookie setter; no other signal is
+    written."""
+    ast = ctx.ast
+    fn = ast.fn(CTX, "init_context_inner")
+    if fn is None:
+        r.missing("init_context_inner")
+        return
+    absint.set_program(ast)
+    w = World({"ssr"}, None, None, parent=False)
+    ev, memo_get = make_eval(ctx, w)
+    cells = {}
+    effects = []          # [closure, kind, handle, tracked sources of the last run, kept alive]
+    writes = []
+    cookie_log = []
+    reading = []          # stack of sets: what the running effect read tracked
+
+    def new_cell(a):
+        cid = len(cells)
+        cells[cid] = a[0]
+        return C("Cell", ("int", cid))
+    base_get = ev.builtins["get"]
+
+    def get_tracked(rv, a):
+        if rv[0] == "ctor" and rv[1] == "Cell":
+            if reading:
+                reading[-1].add(("cell", rv[2][0][1]))
+            return cells[rv[2][0][1]]
+        if rv[0] == "ctor" and rv[1] == "Memo" and reading:
+            reading[-1].add(("memo",))
+        return base_get(rv, a)
+
+    def get_untracked(rv, a):
+        if rv[0] == "ctor" and rv[1] == "Cell":
+            return cells[rv[2][0][1]]
+        return base_get(rv, a)
+    ev.builtins["get"] = get_tracked
+    ev.builtins["get_untracked"] = get_untracked
+
+    def set_(rv, a):
+        if rv[0] == "ctor" and rv[1] == "Cell":
+            cells[rv[2][0][1]] = a[0]
+            writes.append((rv[2][0][1], a[0]))
+            return UNIT
+        if rv == A("set_cookie"):
+            cookie_log.append(a[0])
+            return UNIT
+        return NotImplemented
+    ev.builtins["set"] = set_
+
+    def run_effect(e_, first):
+        reading.append(set())
+        try:
+            ev.apply(e_[0], [C("None") if first else C("Some", UNIT)])
+        finally:
+            e_[3] = reading.pop()
+
+    def effect(kind):
+        def f(a):
+            h = A("%s-handle-%d" % (kind, len(effects)))
+            e_ = [a[0], kind, h, set(), kind != "render"]
+            effects.append(e_)
+            if kind == "render":
+                run_effect(e_, True)            # first pass now
+            return h
+        return f
+
+    def on_cleanup(a):
+        cl = a[0]
+        txt = repr(cl[2]) if cl[0] == "closure" else repr(cl)
+        for e_ in effects:
+            if e_[2][1] in txt:
+                e_[4] = True                    # the handle lives in the cleanup closure
+        return UNIT
+    ev.path_builtins.update({"RwSignal::new": new_cell, "RenderEffect::new": effect("render"), "Effect::new": effect("effect"), "Effect::new_isomorphic": effect("effect"),
+                             "on_cleanup": on_cleanup, "drop": lambda a: UNIT, "std::mem::drop": lambda a: UNIT})
+    initial = C("Memo", ("builtin-fn", "phase_value"))
+    ev.builtins["phase_value"] = lambda rv, a: S("FIRST") if w.phase == 0 else S("SECOND")
+    w.phase = 0
+    got = ev.run_fn(fn, [A("set_cookie"), initial])
+    if isinstance(got, str):
+        raise Unknown("%s (init_context_inner)" % got)
+    f = absint.fields_of(got) if got[0] == "ctor" and len(got) > 3 else {}
+    sig = f.get("locale_signal") if f else (got[2][0] if got[0] == "ctor" and got[2] else None)
+    if not (sig is not None and sig[0] == "ctor" and sig[1] == "Cell" and len(cells) >= 1):
+        raise Unknown("init_context_inner returns %s" % absint.fmt(got)[:100])
+    cid = sig[2][0][1]
+    problems = []
+    if cells[cid] != S("FIRST"):
+        problems.append("the context starts with %s, not with the initial memo's first value" % absint.fmt(cells[cid]))
+    # the caller sets a locale right after creation, then the runtime ticks: deferred first passes run now
+    cells[cid] = S("USERSET")
+    for e_ in effects:
+        if e_[1] == "effect":
+            run_effect(e_, True)
+    if cells[cid] != S("USERSET"):
+        problems.append("a set_locale made right after the context was created is overwritten with %s when the effects first run (the synchronising effect must run its first pass at creation)" % absint.fmt(cells[cid]))
+    if not cookie_log or cookie_log[-1] != C("Some", S("USERSET")):
+        problems.append("the locale set by the caller is not written to the cookie (%s)" % [absint.fmt(x) for x in cookie_log][-2:])
+    # later the initial memo yields another value: effects that read it tracked (and are still alive) re-run; then those that read the signal
+    w.phase = 1
+    for e_ in effects:
+        if e_[4] and ("memo",) in e_[3]:
+            run_effect(e_, False)
+    for e_ in effects:
+        if e_[4] and ("cell", cid) in e_[3]:
+            run_effect(e_, False)
+    if cells[cid] != S("SECOND"):
+        problems.append("when the initial memo yields another locale the context keeps %s (the synchronising effect must read the memo tracked and stay alive until cleanup)" % absint.fmt(cells[cid]))
+    elif not cookie_log or cookie_log[-1] != C("Some", S("SECOND")):
+        problems.append("a later locale is not written to the cookie (%s)" % [absint.fmt(x) for x in cookie_log][-2:])
+    if any(c != cid for c, _v in writes):
+        problems.append("another signal than the context's own is written")
+    if problems:
+        r.viol("%s:init_context_inner#model" % rid, "; ".join(problems), file=CTX, line=fn.line)
+    else:
+        r.inst("init_context_inner (evaluated)", "a signal created in this call holding the initial memo's first value; a set_locale right after creation survives the first tick; the signal follows the memo "
+               "when that changes (tracked read, effect kept until cleanup); every value goes to the cookie setter; %d effect(s), no other signal written" % len(effects))
